@@ -369,7 +369,7 @@ class Case:
             out.update(v)
         return out
 
-    def regions(self, env):
+    def regions(self, env, res=None, k=None):
         """named input regions (known findings are scoped by these): name -> formula"""
         return {}
 
@@ -521,7 +521,14 @@ def _refute_small(assumptions, neg_goal, mk, timeout_ms):
     """a sat answer: look for a small model first (n <= 1,2,3,4,6,8)"""
     lens = [obj for kind, name, obj in mk.decls if kind == "length"]
     for b in (1, 2, 3, 4, 6, 8, 16):
-        fs = assumptions + [neg_goal] + [z3.And(n <= b) for n in lens]
+        # the model must satisfy the quantified requires at every position below the bound
+        ground = []
+        for fact in mk.facts:
+            for i in range(b + 1):
+                g = fact.body(z3.IntVal(i))
+                if g is not True:
+                    ground.append(alg.lift(g))
+        fs = assumptions + ground + [neg_goal] + [z3.And(n <= b) for n in lens]
         v, s = solve.check_sat(fs, timeout_ms)
         if v.status == "sat" and v.model is not None:
             return v.model
@@ -614,12 +621,12 @@ def verify_case(T, case, timeout_ms=None, want=None, exclude=None):
     rets = [p for p in paths if not p.raised]
     raising = [p for p in paths if p.raised]
 
-    def excl(short, penv):
+    def excl(short, penv, res=None, k=None):
         """extra assumptions: outside every excluded region of this obligation"""
         names = exclude.get(short, [])
         if not names:
             return []
-        regs = case.regions(penv)
+        regs = case.regions(penv, res, k)
         return [alg.lift(alg.not_(regs[r])) for r in names]
 
     def mkob(short, kind):
@@ -742,8 +749,11 @@ def verify_case(T, case, timeout_ms=None, want=None, exclude=None):
             if not want(short):
                 continue
             ob = obs.setdefault(nm, mkob(short, "post"))
+            hints = []
+            if isinstance(f, tuple):  # (formula, sound extra assumptions: spec axioms, fact instances)
+                f, hints = f[0], [alg.lift(h) for h in f[1] if h is not True]
             if ob.status == "discharged":
-                _check_valid(ob, p, mk, alg.implies(inr, f), timeout_ms, seeds, extra=excl(short, penv))
+                _check_valid(ob, p, mk, alg.implies(inr, f), timeout_ms, seeds, extra=excl(short, penv, res, k) + hints)
         if not canary_refuted:
             cn = case.canary(penv, res, k)
             if cn is not None:
